@@ -31,6 +31,22 @@ pub struct Supplied {
     pub entries: Vec<EntryS>,
     pub max_version: u64,
     pub last_gc_version: u64,
+    /// 0 none; 1: max_version = u64::MAX; 2: max_version = u64::MAX - 1; 3: both fields u64::MAX
+    #[serde(default)]
+    pub extreme: u8,
+}
+
+impl Supplied {
+    fn max(&self) -> u64 {
+        match self.extreme {
+            1 | 3 => u64::MAX,
+            2 => u64::MAX - 1,
+            _ => self.max_version,
+        }
+    }
+    fn gc(&self) -> u64 {
+        if self.extreme == 3 { u64::MAX } else { self.last_gc_version }
+    }
 }
 
 #[derive(Clone, Debug, Serialize, Deserialize)]
@@ -42,6 +58,13 @@ pub struct CatchupCase {
     /// After the call, deliver this honest-form delta about the member (only after well-formed
     /// supplied states): (watermark, start, explicit max or 0, key-values)
     pub follow_up: Option<(u64, u64, u64, Vec<EntryS>)>,
+    /// A second catch-up call right after the first one (same oracles).
+    #[serde(default)]
+    pub second: Option<Supplied>,
+    /// Supplied entries whose key the copy already holds reuse the copy's value text (the owner
+    /// wrote the same value again at a newer version).
+    #[serde(default)]
+    pub same_values: bool,
 }
 
 const DEAD_GRACE_MS: u64 = 20_000;
@@ -120,6 +143,83 @@ async fn prepare(case: &CatchupCase, nodes: &mut [&mut Chitchat]) -> Result<(), 
     Ok(())
 }
 
+/// One catch-up call with the replacement oracle. Returns (before, after, passed_guards, supplied
+/// entries) or None when the member is (rightly) absent.
+#[allow(clippy::type_complexity)]
+fn one_call(n: &mut Chitchat, xr: &chitchat::ChitchatId, sup: &Supplied, same_values: bool, removed: bool, tally: &mut Tally) -> Result<Option<(CopySpec, CopySpec, bool, Vec<EntryS>)>, Failure> {
+    let before = n.node_state(xr).map(read_spec);
+    let before_entries: BTreeMap<u8, EntryS> = before.as_ref().map(|c| c.entries.iter().map(|e| (e.key, e.clone())).collect()).unwrap_or_default();
+    let before_values: BTreeMap<String, String> = n.node_state(xr).map(|ns| ns.key_values_including_deleted().map(|(k, vv)| (k.to_string(), vv.value.clone())).collect()).unwrap_or_default();
+    let mut seen = std::collections::HashSet::new();
+    let supplied: Vec<EntryS> = sup.entries.iter().filter(|e| seen.insert(e.key % 4)).cloned().collect();
+    let kvs: Vec<(String, VersionedValue)> = supplied
+        .iter()
+        .map(|e| {
+            let (k, mut v) = vv(e);
+            if same_values && e.status != 1 {
+                if let Some(old) = before_values.get(&k) {
+                    if !old.is_empty() {
+                        v.value = old.clone();
+                    }
+                }
+            }
+            (k, v)
+        })
+        .collect();
+    let (smax, sgc) = (sup.max(), sup.gc());
+    let r = guard(|| n.reset_node_state_if_update(xr, kvs.into_iter(), smax, sgc));
+    if let Err(p) = r {
+        return Err(Failure::new(format!("C18/{}", p.signature()), format!("existing {:?}, supplied {:?} (max {smax}, watermark {sgc}): {}", before, sup, p.describe())));
+    }
+    let after = n.node_state(xr).map(read_spec);
+    if removed {
+        if after.is_some() {
+            return vio("C18/recreated-removed-member", "a member remembered as garbage collected was recreated by the catch-up call".into());
+        }
+        tally.label("removed_member");
+        tally.nontrivial(str_hash(&format!("{sup:?}removed")));
+        return Ok(None);
+    }
+    let b = before.clone().unwrap_or(CopySpec { gc: 0, max: 0, entries: vec![] });
+    let Some(a) = after else {
+        if before.is_some() {
+            return vio("C18/member-vanished", "the member's copy disappeared".into());
+        }
+        return Ok(None);
+    };
+    if (a.gc, a.max) < (b.gc, b.max) {
+        return vio("C18/frontier-lowered", format!("(watermark, max version) went {:?} -> {:?} (supplied max {smax} watermark {sgc})", (b.gc, b.max), (a.gc, a.max)));
+    }
+    let unchanged = a == b;
+    let passed_guards = b.max < smax && smax >= b.gc;
+    if !unchanged {
+        // Replacement: key set = supplied key set, newer version per key (existing wins ties).
+        let mut want: BTreeMap<u8, (u64, u8)> = BTreeMap::new();
+        for e in &supplied {
+            let k = e.key % 4;
+            match before_entries.get(&k) {
+                Some(old) if old.version >= e.version => {
+                    want.insert(k, (old.version, old.status));
+                }
+                _ => {
+                    want.insert(k, (e.version, e.status));
+                }
+            }
+        }
+        let got: BTreeMap<u8, (u64, u8)> = a.entries.iter().map(|e| (e.key, (e.version, e.status))).collect();
+        if got != want {
+            return vio("C18/wrong-replacement", format!("copy changed but its entries {:?} are neither the previous ones nor the supplied set merged by version {:?} (before {:?})", got, want, b.entries));
+        }
+        tally.label("replaced");
+    } else {
+        tally.label("unchanged");
+    }
+    if sup.extreme != 0 {
+        tally.label("extreme_versions");
+    }
+    Ok(Some((b, a, passed_guards, supplied)))
+}
+
 pub fn exec_catchup(case: &CatchupCase, tally: &mut Tally) -> Result<(), Failure> {
     with_paused_runtime(async {
         let x = member_x();
@@ -131,59 +231,20 @@ pub fn exec_catchup(case: &CatchupCase, tally: &mut Tally) -> Result<(), Failure
             tally.discard(&format!("setup: {}", e.chars().take(50).collect::<String>()));
             return Ok(());
         }
+        let removed = matches!(case.existing, Existing::Removed | Existing::RemovedCatchupOnly);
         let before = n.node_state(&xr).map(read_spec);
-        let before_entries: BTreeMap<u8, EntryS> = before.as_ref().map(|c| c.entries.iter().map(|e| (e.key, e.clone())).collect()).unwrap_or_default();
-        // distinct keys in the supplied state
-        let mut seen = std::collections::HashSet::new();
-        let supplied: Vec<EntryS> = case.supplied.entries.iter().filter(|e| seen.insert(e.key % 4)).cloned().collect();
-        let kvs: Vec<(String, VersionedValue)> = supplied.iter().map(vv).collect();
-        let r = guard(|| n.reset_node_state_if_update(&xr, kvs.into_iter(), case.supplied.max_version, case.supplied.last_gc_version));
-        if let Err(p) = r {
-            return vio(&format!("C18/{}", p.signature()), format!("existing {:?}, supplied {:?}: {}", before, case.supplied, p.describe()));
+        let (b, a, passed_guards, supplied) = match one_call(&mut n, &xr, &case.supplied, case.same_values, removed, tally)? {
+            Some(r) => r,
+            None => return Ok(()),
+        };
+        if let Some(second) = &case.second {
+            // a second call right away (e.g. answers from two peers): same oracles
+            if one_call(&mut n, &xr, second, case.same_values, removed, tally)?.is_some() {
+                tally.label("second_call");
+            }
         }
         let after = n.node_state(&xr).map(read_spec);
-        if matches!(case.existing, Existing::Removed | Existing::RemovedCatchupOnly) {
-            if after.is_some() {
-                return vio("C18/recreated-removed-member", "a member remembered as garbage collected was recreated by the catch-up call".into());
-            }
-            tally.label("removed_member");
-            tally.nontrivial(str_hash(&format!("{case:?}")));
-            return Ok(());
-        }
-        let b = before.clone().unwrap_or(CopySpec { gc: 0, max: 0, entries: vec![] });
-        let Some(a) = after.clone() else {
-            if before.is_some() {
-                return vio("C18/member-vanished", "the member's copy disappeared".into());
-            }
-            return Ok(());
-        };
-        if (a.gc, a.max) < (b.gc, b.max) {
-            return vio("C18/frontier-lowered", format!("(watermark, max version) went {:?} -> {:?} (supplied max {} watermark {})", (b.gc, b.max), (a.gc, a.max), case.supplied.max_version, case.supplied.last_gc_version));
-        }
-        let unchanged = a == b;
-        let passed_guards = b.max < case.supplied.max_version && case.supplied.max_version >= b.gc;
-        if !unchanged {
-            // Replacement: key set = supplied key set, newer version per key (existing wins ties).
-            let mut want: BTreeMap<u8, (u64, u8)> = BTreeMap::new();
-            for e in &supplied {
-                let k = e.key % 4;
-                match before_entries.get(&k) {
-                    Some(old) if old.version >= e.version => {
-                        want.insert(k, (old.version, old.status));
-                    }
-                    _ => {
-                        want.insert(k, (e.version, e.status));
-                    }
-                }
-            }
-            let got: BTreeMap<u8, (u64, u8)> = a.entries.iter().map(|e| (e.key, (e.version, e.status))).collect();
-            if got != want {
-                return vio("C18/wrong-replacement", format!("copy changed but its entries {:?} are neither the previous ones nor the supplied set merged by version {:?} (before {:?})", got, want, b.entries));
-            }
-            tally.label("replaced");
-        } else {
-            tally.label("unchanged");
-        }
+        let _ = (&b, &a, &before);
         // Liveness: the call alone must not change the classification at the next evaluation.
         let r = guard(|| {
             n.verif_update_nodes_liveness();
@@ -202,7 +263,7 @@ pub fn exec_catchup(case: &CatchupCase, tally: &mut Tally) -> Result<(), Failure
             let mut vs: Vec<u64> = supplied.iter().map(|e| e.version).collect();
             vs.sort();
             let distinct = vs.windows(2).all(|w| w[0] != w[1]);
-            distinct && supplied.iter().all(|e| e.version >= 1 && e.version <= case.supplied.max_version)
+            distinct && case.second.is_none() && case.supplied.extreme == 0 && supplied.iter().all(|e| e.version >= 1 && e.version <= case.supplied.max_version)
         };
         if let (Some((gc, from, set_max, kvs)), true) = (&case.follow_up, well_formed) {
             let mut ops = vec![WOp::Node { id: x.clone(), last_gc: *gc, from_version: *from }];
@@ -269,15 +330,7 @@ fn copy_strategy(vmax: u64) -> impl Strategy<Value = CopySpec> {
     })
 }
 
-pub fn case_strategy() -> impl Strategy<Value = CatchupCase> {
-    let vmax = 9u64;
-    let existing = prop_oneof![
-        2 => Just(Existing::Absent),
-        2 => Just(Existing::Empty),
-        8 => copy_strategy(vmax).prop_map(Existing::Copy),
-        1 => Just(Existing::Removed),
-        1 => Just(Existing::RemovedCatchupOnly),
-    ];
+fn supplied_strategy(vmax: u64) -> impl Strategy<Value = Supplied> {
     let supplied = (entries_strategy(vmax + 2), 0..=vmax + 3, 0..=vmax + 3, any::<bool>()).prop_map(|(mut entries, max_version, last_gc_version, consistent)| {
         if consistent {
             // well-formed: distinct versions, all <= max_version, tombstones above the watermark
@@ -289,10 +342,27 @@ pub fn case_strategy() -> impl Strategy<Value = CatchupCase> {
                 }
             }
         }
-        Supplied { entries, max_version, last_gc_version }
+        Supplied { entries, max_version, last_gc_version, extreme: 0 }
     });
+    (supplied, prop_oneof![12 => Just(0u8), 1 => Just(1u8), 1 => Just(2u8), 1 => Just(3u8)]).prop_map(|(mut s, extreme)| {
+        s.extreme = extreme;
+        s
+    })
+}
+
+pub fn case_strategy() -> impl Strategy<Value = CatchupCase> {
+    let vmax = 9u64;
+    let existing = prop_oneof![
+        2 => Just(Existing::Absent),
+        2 => Just(Existing::Empty),
+        8 => copy_strategy(vmax).prop_map(Existing::Copy),
+        1 => Just(Existing::Removed),
+        1 => Just(Existing::RemovedCatchupOnly),
+    ];
+    let supplied = supplied_strategy(vmax);
+    let second = proptest::option::weighted(0.3, supplied_strategy(vmax));
     let follow = proptest::option::weighted(0.5, (0..=vmax, 0..=vmax, 0..=vmax + 3, entries_strategy(vmax + 3)));
-    (existing, supplied, 0u8..4, follow).prop_map(|(existing, supplied, heartbeats_before, follow_up)| CatchupCase { existing, supplied, heartbeats_before, follow_up })
+    (existing, supplied, 0u8..4, follow, second, proptest::bool::weighted(0.3)).prop_map(|(existing, supplied, heartbeats_before, follow_up, second, same_values)| CatchupCase { existing, supplied, heartbeats_before, follow_up, second, same_values })
 }
 
 pub fn run(ctx: &Ctx, report: &mut Report) {
